@@ -216,4 +216,35 @@ func init() {
 		}, pipeAssume...),
 		Outside: "the bytes produced by the json/yaml/toml libraries (codec boundary; only the round trip through $decode is checked, on concrete values); sha256 of symbolic data",
 	})
+
+	reg(propSpec{
+		ID: "C02",
+		Harnesses: []harnessSpec{
+			{Pkg: "bkl", Func: "HarnessC02_stream", Tiers: "qt", Covers: []string{"stream.layered", "stream.multi", "stream.rejected"},
+				Bound: "base stream of 1-2 (quick) / 1-3 (thorough) documents (a: any scalar | map [| absent, b]), a further layer of 1-2 documents and an optional probing layer of 1 document; layer documents override/add scalars and maps and carry no $match, $match: null | {} | {a: s} | {a: s, $invert: true}, or $replace: true; parent links as file.setParents sets them; after every MergeDocument: count, order and content equal the functional stream model (private copies), and no two documents share a map or list"},
+		},
+		Assume:  pipeAssume,
+		Outside: "4 base documents, 3 further layers, duplicate document IDs, file loading itself (C03)",
+	})
+	reg(propSpec{
+		ID: "C09",
+		Harnesses: []harnessSpec{
+			{Pkg: "bkl", Func: "HarnessC09_order", Tiers: "qt", Order: true, Covers: []string{"order.output", "order.error"},
+				Bound: "8 input families (3-key maps with nulls, 4 $output selections, 3 named $repeat counts, flags/values transforms, layering with $delete and additions, $merge with overlapping keys, interpolated/$env keys, several $required); leaves symbolic-kind scalars; one (quick) / two (thorough) `range`-over-map instances per evaluation leave insertion order, over all permutations and with inserted keys visited or not; every path compared with a canonical reference run"},
+		},
+		Assume: append([]string{
+			"map iteration: any order is possible at each range; exploration is budgeted to 1 (quick) / 2 (thorough) permuted range instances per evaluation - which instances is itself explored",
+			"stores to package-level variables after init are recorded in the evidence (none on the unchanged tree): the basis for independence from concurrent evaluations",
+		}, pipeAssume...),
+		Outside: "goroutine interleavings and the race detector, separate processes, the encoders' own determinism, evaluations in which three or more ranges must deviate together; which error is returned; known finding C09-K1",
+	})
+	reg(propSpec{
+		ID: "C19",
+		Harnesses: []harnessSpec{
+			{Pkg: "bkl", Func: "HarnessC19_history", Tiers: "qt", Covers: []string{"history.repeat", "history.merge", "history.documents", "history.withoutput"},
+				Bound: "1-2 documents from 7 families ($merge, $replace + $merge: string, document $repeat, $encode, $output true/false + list $repeat, interpolation + null, plain), then 3 (quick) / 4 (thorough) calls each chosen from {OutputDocuments, MergeDocument(next layer: add key | change value | $match: null append), Documents}; a twin parser receives the same merges and is never asked for output"},
+		},
+		Assume:  pipeAssume,
+		Outside: "format-specific Output/OutputToWriter/OutputToFile (they add only the codec to OutputDocuments); MergeFileLayers (C03); more than 4 calls",
+	})
 }
